@@ -78,6 +78,11 @@ def eig_lists(pd, N):
     om, _ = freq(k0, kM, sparse_solver=False, silent=True, num_eigvalues=4)
     lam = np.asarray(lam, dtype=float)[:3]
     om = np.asarray(np.real(om), dtype=float)[:3]
+    # amplitudes that carry stiffness but no load have infinite multipliers, which the solver returns as +-1e16 noise:
+    # only the finite positive multipliers are physical quantities that equivalent descriptions share
+    pos = lam[(lam > 0) & np.isfinite(lam)]
+    if len(pos):
+        lam = lam[(lam > 0) & (lam < 1e9 * pos.min())]
     return [dyadic(v) for v in lam], [dyadic(v) for v in om]
 
 
@@ -156,6 +161,11 @@ def run(tier, seed, build):
             continue          # fewer active amplitudes than eigenpairs requested: the dense wrapper's limit is C05's finding
         for nm, a, b, f in (("buckling, axis exchange", la, lb_, Fraction(1)), ("frequency, axis exchange", oa, ob, Fraction(1)),
                             ("buckling, similarity e*s", lc, la, e * s), ("frequency, similarity sqrt(e/q)/s", oc, oa, Fraction(3, 4))):
+            if len(a) != len(b) or not a:
+                if nm.startswith("buckling") and len(a) != len(b):
+                    rep.violation("eigenvalues: %s: the two descriptions have different numbers of finite positive multipliers"
+                                  % nm, dict(pd=pe, a=len(a), b=len(b)))
+                continue
             groups.append([dict(ev="obs_equal", id=eid[0], a=a, b=b, factor=rat(f), tol=30)])
             meta[eid[0]] = ("eigenvalues: " + nm, pe, dict(q="eig"))
             eid[0] += 1
